@@ -96,7 +96,7 @@ def check_case(case, acc, d):
     paths = []
     for i, (entries, nl) in enumerate(zip(case["files"], case["nl"])):
         p = os.path.join(d, f"in{i}.fasta")
-        with open(p, "w") as fh:
+        with open(p, "w", encoding="utf-8") as fh:
             fh.write(file_text(entries, nl))
         paths.append(p)
     out = os.path.join(d, "out.fasta")
@@ -111,7 +111,7 @@ def check_case(case, acc, d):
             np.random.seed(case["seed"])
         mokapot.make_decoys(paths if len(paths) > 1 else paths[0], out, decoy_prefix=prefix,
                             enzyme=ENZYME, reverse=reverse, concatenate=concat)
-        with open(out) as fh:
+        with open(out, encoding="utf-8") as fh:
             text = fh.read()
         got = read_fasta(text)
         repo = [tuple(_parse_protein(p)) for p in _parse_fasta_files(out)]
@@ -198,7 +198,8 @@ def cases_of(item):
     elif fam == "format":
         _, seq = item
         for name, desc, prefix, nl in itertools.product(
-                ("t1", "sp|P12345|ALBU_HUMAN"), ("", "desc", "Serum albumin OS=Homo sapiens >K R"),
+                ("t1", "sp|P12345|ALBU_HUMAN", "orf19_Gr\u00f6\u00dfe", "\u00b5-crystallin_1"),
+                ("", "desc", "Serum albumin OS=Homo sapiens >K R", "5'->3' exoribonuclease \u00b5"),
                 ("decoy_", "rev_"), (False, True)):
             for m in MODES_LITE:
                 yield mk([[[name, desc, seq, 0]]], m, [nl], prefix)
